@@ -91,6 +91,42 @@ func (r *Run) rule(id, kind, text string, expectMin int) {
 	}
 }
 
+// importRules runs another property's rules and adopts the obligations of the named rules under this property
+// (rule id "<this>.<=<origin rule>"): used where a property's behaviour rests on a mechanism decided elsewhere.
+func (r *Run) importRules(f func(*Run), rules ...string) {
+	sub := &Run{Prop: r.Prop, Tier: r.Tier, Seed: r.Seed, W: r.W, mw: r.mw, overlay: r.overlay}
+	f(sub)
+	r.mw = sub.mw
+	want := map[string]bool{}
+	for _, x := range rules {
+		want[x] = true
+	}
+	for _, o := range sub.Obs {
+		if !want[o.Rule] {
+			continue
+		}
+		id := r.Prop + "<=" + o.Rule
+		if r.rules[id] == nil {
+			ri := sub.rules[o.Rule]
+			txt, kind := "", ""
+			if ri != nil {
+				txt, kind = ri.Text, ri.Kind
+			}
+			r.rule(id, kind, "imported: "+txt, 1)
+		}
+		r.rules[id].Matched++
+		o.Rule = id
+		o.Property = r.Prop
+		r.Obs = append(r.Obs, o)
+	}
+	for k := range sub.fnsSeen {
+		if r.fnsSeen == nil {
+			r.fnsSeen = map[string]bool{}
+		}
+		r.fnsSeen[k] = true
+	}
+}
+
 func (r *Run) saw(fn *ssa.Function) {
 	if fn == nil {
 		return
